@@ -109,6 +109,25 @@ def nextCode (t : TA) (data : Array UInt8) : Nat → Nat → Nat → Except Err 
       | .ok c => nextCode t data fuel c p'
       | .error e => .error e
 
+/-- what one code says, before it touches any output: the tree walk along the bit stream, the tree update, and for a
+    repeat block its offset.  Shared by the implementation model and the reference decoder (it involves only the bit
+    stream and the tree). -/
+inductive Sym where
+  | badQuery                                      -- a tree query was refused (never happens on a well-formed tree)
+  | full (p1 : Nat)                               -- the tree refused the update: its counters are full
+  | lit (t' : TA) (p1 : Nat) (c : Nat)            -- a literal byte
+  | mat (t' : TA) (p2 : Nat) (off len : Nat)      -- `len` bytes from distance `off + 1`
+
+def decodeSym (data : Array UInt8) (t : TA) (p : Nat) : Sym :=
+  match nextCode t data t.n t.root p with
+  | .error _ => .badQuery
+  | .ok (code, p1) =>
+    match t.updateChecked code with
+    | .error _ => .full p1
+    | .ok t' =>
+      if code < 256 then .lit t' p1 code
+      else .mat t' (repeatOffset data p1).2 (repeatOffset data p1).1 (code - matchBase)
+
 /-! ## the decompressor object -/
 
 structure St where
@@ -141,22 +160,17 @@ inductive Res where
 
 /-- `DecompressCode`.  On a refused update the bit cursor has already moved, nothing is written, the tree is unchanged. -/
 def decompressCode (st : St) : St × Res :=
-  match nextCode st.tree st.data st.tree.n st.tree.root st.pos with
-  | .error _ => (st, .err)
-  | .ok (code, p1) =>
-    match st.tree.updateChecked code with
-    | .error _ => ({ st with pos := p1 }, .err)
-    | .ok tree' =>
-      if code < 256 then
-        let (buf', w') := put st.buf st.w (UInt8.ofNat code)
-        let st' := { st with pos := p1, tree := tree', buf := buf', w := w' }
-        (st', if endOfStream st.data p1 then .eos else .more)
-      else
-        let (off, p2) := repeatOffset st.data p1
-        let start := (st.w + N - off - 1) % N
-        let (buf', w') := copyMatch st.buf st.w start (code - matchBase)
-        let st' := { st with pos := p2, tree := tree', buf := buf', w := w' }
-        (st', if endOfStream st.data p2 then .eos else .more)
+  match decodeSym st.data st.tree st.pos with
+  | .badQuery => (st, .err)
+  | .full p1 => ({ st with pos := p1 }, .err)
+  | .lit t' p1 c =>
+    ({ st with pos := p1, tree := t', buf := (put st.buf st.w (UInt8.ofNat c)).1, w := (put st.buf st.w (UInt8.ofNat c)).2 },
+     if endOfStream st.data p1 then .eos else .more)
+  | .mat t' p2 off len =>
+    -- `start = (m_BuffWriteIndex - offset - 1) & 0x0FFF`
+    ({ st with pos := p2, tree := t', buf := (copyMatch st.buf st.w ((st.w + N - off - 1) % N) len).1,
+               w := (copyMatch st.buf st.w ((st.w + N - off - 1) % N) len).2 },
+     if endOfStream st.data p2 then .eos else .more)
 
 /-- bytes waiting in the window: `(m_BuffWriteIndex - m_BuffReadIndex) & 0x0FFF` -/
 def St.unread (st : St) : Nat := (st.w + N - st.r) % N
@@ -264,21 +278,13 @@ inductive SRes where
   | last (hist : List UInt8)                         -- decoded; the bit cursor is at or past the end
   | cap                                              -- the tree refused the update (or a query)
 
-/-- one code: walk the tree along the bit stream, update the tree, emit a literal or copy a match -/
+/-- one code on the unbounded history: emit a literal or copy a match -/
 def step (data : Array UInt8) (t : TA) (p : Nat) (hist : List UInt8) : SRes :=
-  match nextCode t data t.n t.root p with
-  | .error _ => .cap
-  | .ok (code, p1) =>
-    match t.updateChecked code with
-    | .error _ => .cap
-    | .ok t' =>
-      if code < 256 then
-        let hist' := UInt8.ofNat code :: hist
-        if endOfStream data p1 then .last hist' else .next t' p1 hist'
-      else
-        let (off, p2) := repeatOffset data p1
-        let hist' := copy hist off (code - matchBase)
-        if endOfStream data p2 then .last hist' else .next t' p2 hist'
+  match decodeSym data t p with
+  | .badQuery => .cap
+  | .full _ => .cap
+  | .lit t' p1 c => if endOfStream data p1 then .last (UInt8.ofNat c :: hist) else .next t' p1 (UInt8.ofNat c :: hist)
+  | .mat t' p2 off len => if endOfStream data p2 then .last (copy hist off len) else .next t' p2 (copy hist off len)
 
 /-- decode codes one after the other until the bit cursor is at or past the end after a code (do-while);
     returns the history (most recent first) -/
@@ -294,21 +300,17 @@ def run (data : Array UInt8) : Nat → TA → Nat → List UInt8 → List UInt8 
 def runCodes (data : Array UInt8) : Nat → TA → Nat → Nat → Nat
   | 0, _, _, k => k
   | fuel + 1, t, p, k =>
-    match nextCode t data t.n t.root p with
-    | .error _ => k
-    | .ok (code, p1) =>
-      match t.updateChecked code with
-      | .error _ => k
-      | .ok t' =>
-        let p2 := if code < 256 then p1 else (repeatOffset data p1).2
-        if endOfStream data p2 then k + 1 else runCodes data fuel t' p2 (k + 1)
+    match decodeSym data t p with
+    | .badQuery => k
+    | .full _ => k
+    | .lit t' p1 _ => if endOfStream data p1 then k + 1 else runCodes data fuel t' p1 (k + 1)
+    | .mat t' p2 _ _ => if endOfStream data p2 then k + 1 else runCodes data fuel t' p2 (k + 1)
 
 def codeCount (data : Array UInt8) : Nat := runCodes data (bitSize data + 2) (TA.init symbolCount) 0 0
 
 /-- the decoded bytes (oldest first) and how decoding ended; every code but the last consumes at least one bit -/
 def decode (data : Array UInt8) : List UInt8 × Status :=
-  let (hist, st) := run data (bitSize data + 2) (TA.init symbolCount) 0 []
-  (hist.reverse, st)
+  ((run data (bitSize data + 2) (TA.init symbolCount) 0 []).1.reverse, (run data (bitSize data + 2) (TA.init symbolCount) 0 []).2)
 
 /-! ### an encoder (tokens → bytes), MSB-first bit packing, zero padding in the last byte -/
 
